@@ -220,7 +220,8 @@ def run(ck):
     for c in cases:
         nframes = len(c.get("frames", []))
         trivial = len(c.get("callers", [])) <= 1 and nframes <= 1
-        ck.count(c["stream"], key=json.dumps([c["events"], [(x["k"], x["res"]) for x in c["callers"]]],
+        # (the key does not depend on the order in which concurrent callers reached the wire)
+        ck.count(c["stream"], key=json.dumps([c["steps"], [(x["k"], x["res"]) for x in c["callers"]]],
                                              sort_keys=True), trivial=trivial)
         for f in c.get("frames", []):
             kinds[f["kind"]] = kinds.get(f["kind"], 0) + 1
@@ -297,7 +298,7 @@ def run(ck):
              "{perm, bad, mixed, sendfail, errbyte, shutdown, hint, peerclose, cancel}: 1-32 concurrent callers of 7 "
              "call kinds, replies in random order and bursts, duplicates, unknown ids, wrong type, truncated and "
              "over-long bodies, short packets, text messages; a history is non-trivial if it has >1 caller or >1 "
-             "frame; distinct = distinct (event trace, per-caller results)",
+             "frame; distinct = distinct (script, per-caller results)",
         assumptions=["a callExchange is enqueued once (asyncCall creates a fresh one per call)",
                      "the wire order of requests and replies is the order serve and the reader act in",
                      "an error byte != 0 and the reply to msgShutdown end the transport by design"])
